@@ -451,7 +451,13 @@ class NetlistMixin(object):
     def _dummy_node_name(self):
         """Create a dummy node name."""
 
-        return '_' + self._make_anon_node_name()
+        # The netlist may already have dummy nodes made by an earlier
+        # transformation of another netlist (for example,
+        # noise_model() followed by s_model()).
+        name = '_' + self._make_anon_node_name()
+        while name in self.nodes:
+            name = '_' + self._make_anon_node_name()
+        return name
 
     def _find_combine_subsets(self, aset):
         """Return dict of subsets of component names where each subset has the
